@@ -301,10 +301,78 @@ pub fn run(ctx: &Ctx) -> Report {
         st = st.merge(st4);
     }
 
+    // (5) overlapping declarations: names declared always / conditionally required that also fall under a declared
+    //     prefix, or are declared in two categories — each declaration is enforced on its own terms (an
+    //     always-required header is required even when the request does not send it)
+    {
+        const A5: [&str; 3] = ["x-p-must", "X-Amz-Target", "x-both"];
+        const I5: [&str; 3] = ["x-p-opt", "x-amz-date", "x-both"];
+        const P5: [&str; 2] = ["x-p-", "X-Amz"];
+        const H5: [&str; 5] = ["x-p-must", "x-amz-target", "x-p-opt", "x-both", "x-p-1"];
+        let mut shapes5: Vec<(u32, u32)> = Vec::new();
+        for present in 0u32..32 {
+            let mut sub = present;
+            loop {
+                shapes5.push((present, sub));
+                if sub == 0 {
+                    break;
+                }
+                sub = (sub - 1) & present;
+            }
+        }
+        let n_sh = shapes5.len() as u64;
+        let total5 = 256 * n_sh * 2;
+        let base5 = base2 + n_seq + 10_000_000;
+        let st5 = par_sweep(total5, |i, st| {
+            let mut x = i;
+            let date_signed = x % 2 == 0;
+            x /= 2;
+            let (present, signed_mask) = shapes5[(x % n_sh) as usize];
+            x /= n_sh;
+            let rs = x; // 8 bits: always(3) ifin(3) prefixes(2)
+            let reqs = ReqSpec {
+                always: (0..3).filter(|b| rs & (1 << b) != 0).map(|b| A5[b].to_string()).collect(),
+                if_in_request: (0..3).filter(|b| rs & (8 << b) != 0).map(|b| I5[b].to_string()).collect(),
+                prefixes: (0..2).filter(|b| rs & (64 << b) != 0).map(|b| P5[b].to_string()).collect(),
+                how: Some(if i % 3 == 0 { ReqBuild::Slice } else if i % 3 == 1 { ReqBuild::VecNew } else { ReqBuild::VecAdd }),
+            };
+            let mut plan = e2e::base_plan(Carrier::Header);
+            plan.headers.clear();
+            plan.headers.push(("Host".into(), b"example.amazonaws.com".to_vec()));
+            let mut list: Vec<String> = vec!["host".into()];
+            if date_signed {
+                list.push("x-amz-date".into());
+            }
+            for (b, h) in H5.iter().enumerate() {
+                if present & (1 << b) != 0 {
+                    plan.headers.push((h.to_string(), format!("v{}", b).into_bytes()));
+                }
+                if signed_mask & (1 << b) != 0 {
+                    list.push(h.to_string());
+                }
+            }
+            plan.signed = list;
+            let built = build(&plan);
+            let mut cfg = Cfg::basic(e2e::base_instant());
+            cfg.reqs = reqs;
+            let case = Case { wire: WireReq::from_wire(&built.wire), cfg, prov: ProvSpec::standard() };
+            let before = st.violations.len();
+            let j = e2e::judge_into(base5 + i, &case, st);
+            if st.violations.len() > before {
+                if let Some(v) = st.violations.last_mut() {
+                    v.what = format!("overlapping-declarations:{}", v.what);
+                }
+            }
+            st.state(&(rs, j.reference.accepted(), "overlap"));
+            st.nontrivial(&(rs, present, signed_mask, date_signed, "overlap"));
+        });
+        st = st.merge(st5);
+    }
+
     Report {
         stats: st,
         rule: format!(
-            "64 requirement sets (always ⊆ {{x-req-a, Content-Type}}, if-in-request ⊆ {{x-opt-c, ETag}}, prefixes ⊆ {{x-p-, X-Amz}}) x {} letter-case styles x {} ways of building the requirements (slice, VecSignedHeaderRequirements::new, add_*, add_* then remove_* of decoys) x every subset of 7 optional request headers (one of them named exactly like the declared prefix x-p-; values rotate through empty, blank and non-empty) x every signed subset of the present headers and x-amz-date x {{host, :authority, neither}}; every request is correctly signed over exactly the list it declares, so only the requirement rules can refuse it. Oracle: reference verifier (Ok iff host/:authority signed, every always-header signed, every present conditional header signed, every present header matching a prefix — including x-amz-date and authorization-related ones — signed; otherwise SignatureDoesNotMatch/403 and an empty provider log). plus every sequence of up to {} add_*/remove_* operations over three names (two of them case variants of each other) on VecSignedHeaderRequirements, compared with a set model of what was declared; plus signed-header lists as multisets (a name repeated once / twice, every entry doubled, a name of a header not sent, as many repeats as there are unsigned sent headers) x 64 requirement sets x 15 header presence sets x every signed subset. states = (requirement set, accepted)",
+            "64 requirement sets (always ⊆ {{x-req-a, Content-Type}}, if-in-request ⊆ {{x-opt-c, ETag}}, prefixes ⊆ {{x-p-, X-Amz}}) x {} letter-case styles x {} ways of building the requirements (slice, VecSignedHeaderRequirements::new, add_*, add_* then remove_* of decoys) x every subset of 7 optional request headers (one of them named exactly like the declared prefix x-p-; values rotate through empty, blank and non-empty) x every signed subset of the present headers and x-amz-date x {{host, :authority, neither}}; every request is correctly signed over exactly the list it declares, so only the requirement rules can refuse it. Oracle: reference verifier (Ok iff host/:authority signed, every always-header signed, every present conditional header signed, every present header matching a prefix — including x-amz-date and authorization-related ones — signed; otherwise SignatureDoesNotMatch/403 and an empty provider log). plus every sequence of up to {} add_*/remove_* operations over three names (two of them case variants of each other) on VecSignedHeaderRequirements, compared with a set model of what was declared; plus signed-header lists as multisets (a name repeated once / twice, every entry doubled, a name of a header not sent, as many repeats as there are unsigned sent headers) x 64 requirement sets x 15 header presence sets x every signed subset; plus 256 requirement sets whose declarations overlap (names declared always / conditionally required that also fall under a declared prefix, x-amz-date declared conditional, one name in two categories) x every presence subset of 5 headers x every signed subset x x-amz-date signed or not. states = (requirement set, accepted)",
             if thorough { 3 } else { 3 }, n_build, depth
         ),
         bounds: json!({"requirement_sets": 64, "shapes": n_shapes, "cases": total}),
